@@ -24,6 +24,7 @@ import (
 	"sort"
 	"strings"
 	"sync"
+	"sync/atomic"
 	"time"
 
 	"github.com/sanonone/kektordb/internal/verifkit"
@@ -602,6 +603,9 @@ func c19Trunc(s string, n int) string {
 // serving one request through the full handler chain
 // ---------------------------------------------------------------------------
 
+// c19SlowCalls counts calls that answered only after the hang limit (reported in the evidence, never a violation).
+var c19SlowCalls atomic.Int64
+
 type c19Resp struct {
 	status  int
 	header  http.Header
@@ -651,8 +655,16 @@ func (env *c19Env) serve(method, target string, body io.Reader, ctxTimeout, hang
 	select {
 	case <-done:
 	case <-time.After(hangLimit):
-		res.hung = true
-		return res, nil
+		// No answer within the limit. A hung call never answers; a call that is merely starved of CPU
+		// (the machine may be heavily loaded) does. Wait five more limits before calling it hung, so
+		// that slowness alone can never be reported as a violation.
+		select {
+		case <-done:
+			c19SlowCalls.Add(1)
+		case <-time.After(5 * hangLimit):
+			res.hung = true
+			return res, nil
+		}
 	}
 	res.status = rec.Code
 	res.header = rec.Header()
